@@ -66,11 +66,19 @@ def run(tier, seed, replay):
                        "walk(.)", "[tostream]", "map(tostring)", "map(tojson)", "map(ascii_downcase?)", "map(abs?)", "map(-(.)?)", "map(length?)", "map(ltrimstr(\"a\")?)", "bsearch(1)", "combinations?", "[limit(2; .[])]", "has(0)", "map(type)",
                        "(map(type) | join(\" \")), join(\"-\")", "add, join(\",\")", "[.[] | numbers] | add", "map(. as $x | [$x])", "to_entries | from_entries?", "[.[] | tojson] | join(\",\")", "map(@base64?)", "map(@uri?)", "map(floor?)", "map(sqrt?)"]
             special += [(e, r.choice(uni), r.choice(uni)) for e in enum]
+            # empty arrays have no identity: the result may not depend on how the caller allocated them (finding F-D24: make([]any, 0, 3) vs []any{})
+            emptyin = [jqgen.V(x) for x in ([], {"a": [], "b": []}, [[]], [[], []], {"a": {"b": []}, "c": [[]]})]
+            emptyprogs = ["[.[]][].a = 1", "[.[]][0] = 1", "path([.[]][0])", "(.a as $x | .b | $x[0] = 1)?", "path(keys[0])?", "path(.[1:][0])?", "((.[0:0] | .[0]) = 1)?", "path(flatten | .[0])?", "path(sort | .[])?",
+                          "path(map(.) | .[])?", "path(.. | arrays | .[0])", "del([.[]?][0])", "try path(to_entries | .[0]) catch \"invalid\"", "[..] | map(try path(.[0]) catch \"invalid\")",
+                          "try ([][0] = 1) catch \"invalid\"", "try path([] | .[]) catch \"invalid\"", ".[]? |= ([] | .[0] = 1)", "try (reduce .[]? as [$y] (.; ([] | .[0] = 1))) catch \"invalid\""]
+            special += [(p, i, r.choice(uni)) for p in emptyprogs for i in emptyin]
+            always = [{"src": p, "input": i, "other": r.choice(uni), "mode": m, "vars": []} for p in emptyprogs[:4] for i in emptyin[:2] for m in MODES]
             special += [(".%s | try (%s) catch \"err\"" % (k, n), kinds, r.choice(uni)) for n in natives for k in r.sample(["nums", "ints", "strs", "arrs", "objs", "mix", "one", "none"], 2 if quick else 8)]
             if quick:
                 special = r.sample(special, min(len(special), 420))
             for p, i, o in special:
                 cases.append({"id": len(cases), "src": p, "input": i, "other": o, "mode": r.choice(MODES), "vars": [r.choice(bigin + addin), r.choice(bigin + addin)] if "$v" in p else []})
+            cases += [dict(c, id=len(cases) + k) for k, c in enumerate(always)]
             cor = evalfam.corpus_cases(work, vh)
             for i in range(1200 if quick else 150000):
                 src = jqgen.c05_program(r) if r.randrange(6) else r.choice(cor)["src"]
@@ -83,6 +91,9 @@ def run(tier, seed, replay):
             if rec.get("hang") or "panic" in rec or "fatal" in rec:
                 rep.violation("%s in %r (input mode %s)" % ("hang" if rec.get("hang") else "fatal: " + rec["fatal"] if "fatal" in rec else "panic: " + rec["panic"], c["src"], c["mode"]),
                               {"family": "isolate", "case": c, "actual": rec.get("panic") or rec.get("fatal")})
+            elif rec.get("budget"):
+                rep.count("out_of_model")      # a run was ended by a budget of the harness (polls, wall clock, process heap): the history says nothing about the library
+                rep.cov["histories_ended_by_harness_budget"] = rep.cov.get("histories_ended_by_harness_budget", 0) + 1
             elif "events" in rec:
                 rec["cut"] = any(e.get("e") == "error" for e in rec["events"]) or sum(1 for e in rec["events"] if e.get("e") == "emit" and e.get("run") == 1) >= 40
                 good.append(rec)
